@@ -4,6 +4,7 @@ package sim
 
 import (
 	"fmt"
+	"os"
 	"sort"
 	"strings"
 
@@ -332,6 +333,19 @@ func (r *Recorder) Summary() string {
 		c := r.Cfgs[k]
 		fmt.Fprintf(&sb, "| cfg %s idx=%d prop=%d com=%d app=%d term=%d/%d master=%s %s ", c.TargetID, c.Index, c.Status.Proposed.Index, c.Status.Committed.Index,
 			c.Status.Applied.Index, c.Status.Mastership.Term, c.Status.Applied.Mastership.Term, r.s.K.Canon(c.Status.Mastership.Master), c.Status.State)
+	}
+	if os.Getenv("VERIF_VERBOSE") != "" {
+		for id, vals := range r.Vals {
+			ks := make([]string, 0, len(vals))
+			for k := range vals {
+				ks = append(ks, k)
+			}
+			sort.Strings(ks)
+			fmt.Fprintf(&sb, "| vals %s:", id)
+			for _, k := range ks {
+				fmt.Fprintf(&sb, " %s(del=%v,idx=%d)", k, vals[k].Deleted, vals[k].Index)
+			}
+		}
 	}
 	for i, c := range r.s.Calls {
 		if c == nil {
